@@ -138,6 +138,15 @@ func forwardCheckPoint(ctx context.Context, nodeKey string) context.Context {
 	return context.WithValue(ctx, checkPointKey{}, (*checkpoint)(nil))
 }
 
+// clearCheckPoint hides the checkpoint of the resumed run from tasks that were not pending in it:
+// only restored tasks continue from a nested checkpoint, later executions of the same node start fresh.
+func clearCheckPoint(ctx context.Context) context.Context {
+	if getCheckPointFromCtx(ctx) == nil {
+		return ctx
+	}
+	return context.WithValue(ctx, checkPointKey{}, (*checkpoint)(nil))
+}
+
 func newCheckPointer(
 	inputPairs, outputPairs map[string]streamConvertPair,
 	store CheckPointStore,
